@@ -88,6 +88,16 @@ def run(ctx):
             cs.append(dict(name='decompress-corrupt', args=['-d', '-n', str(rnd.choice(ws))], stdin=bytes(bad), env=lbz.sched_env(rnd)))
             cs.append(dict(name='copy-cdf', args=['-cdf', '-n', str(rnd.choice(ws))], stdin=t[:rnd.choice([0, 3, 70000, 200000])],
                            env=lbz.sched_env(rnd), expect_rc=0, feed=lbz.feed_pattern(rnd)))
+        # valid stream followed by trailing garbage that spans several input blocks, through a pipe that stalls:
+        # the reader is inside read() when a worker finishes parsing
+        for gran, glen in ((None, 1 << 20), ('4096', 60000), ('65536', 400000)):
+            env = lbz.sched_env(rnd)
+            if gran:
+                env['LBZIP2_VERIF_IN_GRANUL'] = gran
+            first = (262144 if not gran else int(gran)) + 1000
+            cs.append(dict(name='decompress-trailing-garbage', args=['-d', '-n', str(rnd.choice(ws))],
+                           stdin=comps[0][:0] + core.run([plain_lb, '-1'], stdin=texts[0][:3000], timeout=60).out + b'garbage!' * (glen // 8),
+                           env=env, expect_rc=0, feed=([first, 1 << 20], rnd.choice([0.05, 0.2]))))
         cs.append(dict(name='decompress-flood', args=['-d', '-n', str(rnd.choice(ws))], stdin=flood,
                        env=dict(lbz.sched_env(rnd), LBZIP2_VERIF_IN_GRANUL=str(rnd.choice([256, 4096]))), expect_rc=0))
         cs.append(dict(name='decompress-follower', args=['-d', '-n', str(rnd.choice(ws))], stdin=fol,
